@@ -84,6 +84,9 @@ def maxlen(fmt, typ):
 
 def alphabet(kind, sep):
     a = {'N': '0123456789', 'X': CSET82, 'Y': CSET39, 'Z': CSET64}[kind]
+    if len(sep) > 1:
+        # a value must not contain the separator string; excluding its first character is the simple sufficient rule
+        sep = sep[0]
     return ''.join(c for c in a if c not in sep)
 
 
@@ -121,7 +124,7 @@ def value(draw, ai, sep):
             if kind == '-':
                 out += '-'
                 continue
-            n = draw(st.one_of(st.integers(1, k), st.just(k), st.just(1))) if var else k
+            n = draw(st.one_of(st.integers(1, k), st.just(k), st.just(1), st.integers(max(1, k - 7), k))) if var else k
             al = alphabet(kind, sep)
             out += draw(st.text(alphabet=al, min_size=n, max_size=n))
         return out, out
